@@ -3,6 +3,7 @@
    executable model Bind/Bind.v (impl-model) and Bind/Spec.v (denotation, vocabulary). *)
 Require Import IP.Base.Bytes IP.DM.Value IP.Bind.GoVal IP.Bind.Bind IP.Bind.Spec.
 Require Import IP.Proofs.BindFacts IP.Proofs.BindView IP.Proofs.BindAsm IP.Proofs.BindFits IP.Proofs.BindPure IP.Proofs.BindRefute IP.Proofs.BindMain.
+Require Import IP.Codec.Cbor IP.Proofs.CborEnc IP.Proofs.CborDec IP.Proofs.BindPerm IP.Proofs.BindCbor.
 
 (* Wrap: for every quirk setting, level (type / representation), bindable pair and well-formed Go
    value, the node view computed along bindnode's reflection code paths succeeds and is the
@@ -25,10 +26,9 @@ Theorem C19_unwrap : forall q lv n32 t s d,
 Proof. exact unwrap_thm. Qed.
 Print Assumptions C19_unwrap.
 
-(* Marshal then Unmarshal through any codec that returns what it was given: the fresh Go value is
-   well formed and holds the same data (same representation-level denotation, same view).  Codecs
-   that reorder map entries (the key-sorting defaults of dag-cbor / dag-json) are covered by the
-   correspondence run only. *)
+(* Marshal then Unmarshal through any codec that returns exactly what it was given: the fresh Go
+   value is well formed and holds the same data (same representation-level denotation, same view).
+   Codecs that reorder map entries are C19_marshal_roundtrip_perm / _dagcbor below. *)
 Theorem C19_marshal_roundtrip :
   forall q n32 (enc : dm -> bytes) (dec : bytes -> bres dm), (forall d, dec (enc d) = Ok d) ->
   forall t s g, is_any t = false -> bindable t s = true -> gv_ok q n32 t s g = true ->
@@ -37,6 +37,65 @@ Theorem C19_marshal_roundtrip :
                view q LRepr t s g' = view q LRepr t s g.
 Proof. exact marshal_full_thm. Qed.
 Print Assumptions C19_marshal_roundtrip.
+
+(* Building from a tree whose map entries arrive in any order, at any depth ([perm_eq]: the relation
+   under which the DAG-CBOR encoder is invariant): if d fits the type and d' is d up to entry order,
+   building d' succeeds, the Go value is well formed and denotes d up to entry order (struct fields
+   land in their places whatever the order; ordered-map structs keep the delivered order in Keys). *)
+Theorem C19_unwrap_any_order : forall q lv n32 t s d d',
+  loc_ok (fun _ => bindable t) t s = true -> fits q lv n32 t (deref1 s) d = true -> perm_eq d d' ->
+  exists g, asm q lv n32 t s (zero_of s) false d' = Ok g
+            /\ ok_loc (gv_ok q n32 t) s g = true /\ perm_eq d (denote lv t g).
+Proof. exact (fun q lv n32 t => asm_perm q n32 lv t). Qed.
+Print Assumptions C19_unwrap_any_order.
+
+(* Marshal then Unmarshal through any codec whose decoder returns what the encoder was given up to
+   the order of map entries at every level: the fresh Go value is well formed, holds the same data up
+   to entry order, and reads back as what it denotes ... *)
+Theorem C19_marshal_roundtrip_perm :
+  forall q n32 (enc : dm -> bytes) (dec : bytes -> bres dm) (encodable : dm -> Prop),
+  (forall d, encodable d -> exists d', dec (enc d) = Ok d' /\ perm_eq d d') ->
+  forall t s g, is_any t = false -> bindable t s = true -> gv_ok q n32 t s g = true ->
+  encodable (denote LRepr t g) ->
+  exists b g', marshal q enc t s g = Ok b /\ unmarshal q n32 dec t s b = Ok g' /\
+               gv_ok q n32 t s g' = true /\
+               perm_eq (denote LRepr t g) (denote LRepr t g') /\
+               view q LRepr t s g' = Ok (denote LRepr t g').
+Proof. exact marshal_roundtrip_perm. Qed.
+Print Assumptions C19_marshal_roundtrip_perm.
+
+(* ... and when the encoder does not depend on entry order, marshalling the fresh value gives the
+   same bytes again *)
+Theorem C19_remarshal_perm :
+  forall q n32 (enc : dm -> bytes) (dec : bytes -> bres dm) (encodable : dm -> Prop),
+  (forall d, encodable d -> exists d', dec (enc d) = Ok d' /\ perm_eq d d') ->
+  (forall d d', keys_nodup d -> perm_eq d d' -> enc d = enc d') ->
+  forall t s g, is_any t = false -> bindable t s = true -> gv_ok q n32 t s g = true ->
+  encodable (denote LRepr t g) -> keys_nodup (denote LRepr t g) ->
+  exists b g', marshal q enc t s g = Ok b /\ unmarshal q n32 dec t s b = Ok g' /\
+               gv_ok q n32 t s g' = true /\
+               perm_eq (denote LRepr t g) (denote LRepr t g') /\
+               marshal q enc t s g' = Ok b.
+Proof. exact marshal_remarshal_perm. Qed.
+Print Assumptions C19_remarshal_perm.
+
+(* The concrete DAG-CBOR codec model (Codec/Cbor.v: [cbor_enc] = the registered encoder's output,
+   [cbor_dec o] = the decoder with options o): no premise about the codec is left except that the
+   representation of the value is within the decoder's limits (ints in range, strings to the cap,
+   distinct keys inside Any content, depth, allocation budget). *)
+Theorem C19_marshal_roundtrip_dagcbor : forall q n32 o t s g,
+  d_allow_links o = true ->
+  is_any t = false -> bindable t s = true -> gv_ok q n32 t s g = true ->
+  within_cbor_limits o (denote LRepr t g) ->
+  exists b g', marshal q cbor_enc t s g = Ok b /\ unmarshal q n32 (cbor_dec o) t s b = Ok g' /\
+               gv_ok q n32 t s g' = true /\
+               perm_eq (denote LRepr t g) (denote LRepr t g') /\
+               marshal q cbor_enc t s g' = Ok b.
+Proof. exact marshal_roundtrip_dagcbor. Qed.
+Print Assumptions C19_marshal_roundtrip_dagcbor.
+
+Theorem C19_dagcbor_encoder : forall d, Cbor.enc dagcbor_eopts d = Ok (cbor_enc d).
+Proof. exact cbor_enc_is_encode. Qed.
 
 (* Unwrap then rebuild: the view of any well-formed value fits its type, so the value can be
    rebuilt from what Wrap shows (both levels) into a value holding the same data. *)
